@@ -70,6 +70,10 @@ def run_job(job):
     obs = []
     for ob in ex.obligations:
         o = {k: v for k, v in ob.items() if k != 'model'}
+        if opts.get('best_effort') and o.get('verdict') not in ('sat', 'unsat'):
+            # a time-boxed bug-hunting job claims nothing about what it could not decide
+            ex.ended['best-effort-skipped'] = ex.ended.get('best-effort-skipped', 0) + 1
+            continue
         obs.append(o)
     full = PROG.pkg + '.' + harness
     enc = set(ex.encoded)
